@@ -1,6 +1,6 @@
 #!/bin/bash
 # build.sh <flavour> : builds /verif/out/bin/vdrv-<flavour> from /verif/harness and the CURRENT working tree
-# of the repository (VERIF_REPO, default /repo).  Flavours: plain, asan, limits.
+# of the repository (VERIF_REPO, default /repo).  Flavours: plain, asan, tsan, limits (nesting 4 / circular 1), limits2 (nesting 2 / circular 2).
 set -e
 FL=${1:-plain}
 REPO=${VERIF_REPO:-/repo}
@@ -14,6 +14,7 @@ case $FL in
   asan)   CF="-O1 -fsanitize=address,undefined -fno-sanitize=pointer-overflow -fno-sanitize-recover=undefined -fno-omit-frame-pointer -DVD_ASAN $COMMON" ;;
   tsan)   CF="-O1 -fsanitize=thread -fno-omit-frame-pointer -DVD_TSAN $COMMON" ;;
   limits) CF="-O1 -DCJSON_NESTING_LIMIT=4 -DCJSON_CIRCULAR_LIMIT=1 -DVD_LIMITS $COMMON" ;;
+  limits2) CF="-O1 -DCJSON_NESTING_LIMIT=2 -DCJSON_CIRCULAR_LIMIT=2 -DVD_LIMITS $COMMON" ;;
   *) echo "unknown flavour $FL" >&2; exit 2 ;;
 esac
 rm -f $O/*.o $O/fail
